@@ -488,7 +488,14 @@ func (s *System) exec(a Action, p *Peer, line *TraceLine) (injected uint64) {
 			ref = ptr(s.idCtr[h-1])
 		}
 		s.curRecv = a
-		injected = s.inject(p, model.CmdClassifierType(a.str("cls")), s.remoteAddr(p, a.str("c")), s.localAddr(a.str("s")), ack, ref, cmd)
+		dst := s.localAddr(a.str("s"))
+		switch a.str("ddev") {
+		case "omit":
+			dst.Device = nil
+		case "other":
+			dst.Device = ptr(model.AddressDeviceType("d:elsewhere"))
+		}
+		injected = s.inject(p, model.CmdClassifierType(a.str("cls")), s.remoteAddr(p, a.str("c")), dst, ack, ref, cmd)
 	case "adduc", "remuc", "setav", "remall":
 		ent := s.lents[a.str("e")]
 		actor, name := model.UseCaseActorType(a.str("actor")), model.UseCaseNameType(a.str("name"))
@@ -547,7 +554,14 @@ func (s *System) exec(a Action, p *Peer, line *TraceLine) (injected uint64) {
 			s.lfeat[a.str("k")].AddResultCallback(s.resCb2(a.str("k")))
 		}
 	case "setdata":
-		s.lfeat[a.str("s")].SetData(fnMap[a.str("fn")], mkData(a.str("fn"), a.num("v")))
+		switch a.str("how") {
+		case "upd":
+			_ = s.lfeat[a.str("s")].UpdateData(fnMap[a.str("fn")], mkData(a.str("fn"), a.num("v")), nil, nil)
+		case "updp":
+			_ = s.lfeat[a.str("s")].UpdateData(fnMap[a.str("fn")], mkData(a.str("fn"), a.num("v")), model.NewFilterTypePartial(), nil)
+		default:
+			s.lfeat[a.str("s")].SetData(fnMap[a.str("fn")], mkData(a.str("fn"), a.num("v")))
+		}
 	case "lsub", "lbind", "lunsub", "lunbind":
 		k := s.lfeat[a.str("k")]
 		ra := s.remoteAddr(p, a.str("r"))
